@@ -216,11 +216,17 @@ class System:
                 for t in p["threads"]:
                     self.threads.append((l["name"], p["pid"], t))
 
-    def write(self, tracedir, events=None, libver="1.11.0"):
-        """events: {relpath: bytes of events} ; default header only"""
-        if os.path.exists(tracedir):
-            shutil.rmtree(tracedir)
-        os.makedirs(tracedir)
+    def write(self, tracedir, events=None, libver="1.11.0", keep_outputs=False):
+        """events: {relpath: bytes of events} ; default header only.  keep_outputs: only the stream directories are replaced,
+        whatever an earlier emulation wrote next to them stays (re-emulation in the same directory)."""
+        if os.path.exists(tracedir) and keep_outputs:
+            for n in os.listdir(tracedir):
+                if n.startswith("loom."):
+                    shutil.rmtree(os.path.join(tracedir, n))
+        else:
+            if os.path.exists(tracedir):
+                shutil.rmtree(tracedir)
+            os.makedirs(tracedir)
         for l in self.spec:
             first = True
             for p in l["procs"]:
@@ -240,7 +246,7 @@ class System:
         return obs.relpath(l, p, t)
 
 
-def materialise(system, tracedir, history, stream_of, base_clock=1000):
+def materialise(system, tracedir, history, stream_of, base_clock=1000, keep_outputs=False):
     """Write `history` (list of Ev) as real stream.obs files; stream_of maps the
     server stream index to a relpath.  Clocks are the ones the server uses."""
     bodies = {}
@@ -250,7 +256,7 @@ def materialise(system, tracedir, history, stream_of, base_clock=1000):
         clock += dt
         rel = stream_of[s]
         bodies[rel] = bodies.get(rel, b"") + obs.enc(mcv, clock, p, j)
-    system.write(tracedir, bodies)
+    system.write(tracedir, bodies, keep_outputs=keep_outputs)
     return tracedir
 
 
